@@ -398,6 +398,51 @@ func Run(r *mc.Run) {
 		}
 		return true
 	})
+	// characters that mean something to the machinery a renderer may be built from (fmt verbs, separators re-used for
+	// folding): per cent signs in every part of a possibility, and substvar names that contain the separators of the
+	// field - alone, and inside fields long enough to be folded
+	var odd []string
+	for _, name := range []string{"lib%s-dev", "%d", "100%", "a%!b", "%%", "%v%v", "x"} {
+		for _, qual := range []string{"", ":any", ":%s"} {
+			for _, ver := range []string{"", " (>= 1.0)", " (= 1%s)", " (<< %d.0)"} {
+				for _, arch := range []string{"", " [amd64]", " [%s-any]", " [!%d]"} {
+					for _, prof := range []string{"", " <p>", " <!%s>", " <a %v> <b>"} {
+						odd = append(odd, name+qual+ver+arch+prof)
+					}
+				}
+			}
+		}
+	}
+	filler := "libc6 (>= 2.17), libfoo1 (>= 1.0), libbar2 | libbar1 [amd64], zlib1g, "
+	for _, sv := range []string{"${shlibs:Depends, misc:Depends}", "${a, b}", "${a | b}", "${a,\n b}", "${a},${b}", "${x:y (>= 1)}", "${ , }", "${a,b}"} {
+		odd = append(odd, sv, "a, "+sv, sv+", b", filler+sv, filler+filler+sv+", tail (>= 1)", "a | "+sv+" | b, "+filler+"c")
+	}
+	for _, name := range []string{"lib%s-dev (>= 1.0)", "100% [amd64] <p>"} {
+		odd = append(odd, filler+name, filler+filler+name+", "+filler+"z")
+	}
+	r.Scenario("format-verbs-and-separators-in-names", map[string]interface{}{"texts": len(odd), "shape": "per cent signs in names, qualifiers, version numbers, architecture entries and profile names; substvar names containing ', ' / ' | ' / a line break, alone and in fields of 80..300 bytes"}, 8, func(sh int, st *mc.Stats) bool {
+		for i := sh; i < len(odd); i += 8 {
+			st.Evals++
+			vs, acc := checkFix("format-verbs-and-separators-in-names", In{odd[i]})
+			switch {
+			case !acc && len(vs) == 0:
+				st.Class("rejected")
+			case len(vs) == 0:
+				st.Class("accepted-fixpoint")
+				st.Nontrivial++
+				st.Traces++
+			default:
+				st.Class("accepted-broken")
+				st.Nontrivial++
+				st.Traces++
+			}
+			for _, v := range vs {
+				st.Violate(v)
+			}
+		}
+		return true
+	})
+
 	r.Scenario("arch-names-roundtrip", map[string]interface{}{"components": comps, "names": len(names)}, 8, func(sh int, st *mc.Stats) bool {
 		for i := sh; i < len(names); i += 8 {
 			st.Evals++
